@@ -47,6 +47,7 @@ ToyPoint(v) == IF v = 0 THEN <<>> ELSE Scalar32(v) \o Rep(0, 30) \o <<(v * 7) % 
 PointVal(sec) == sec[32] * 256 + sec[33]      \* of a SEC1 point built by Sec(ToyPoint(v), _)
 
 ToyNfc(cps) == IF cps = <<97, 776>> THEN <<228>> ELSE cps       \* a + combining diaeresis -> a-umlaut
+PassKey(pw) == IF pw.text THEN Utf8(ToyNfc(pw.s)) ELSE pw.s      \* what two passphrases must share to be "the same"
 
 ToyHas(F, q) == TRUE
 ToyVal(F, q) ==
@@ -66,8 +67,12 @@ T == <<>>                                       \* the (unused) oracle table
 MCKeys == { Rep(0, 31) \o <<1>>, [i \in 1..32 |-> (i * 37 + 11) % 256], <<127>> \o Rep(255, 31) }
 MCPool == { [i \in 1..24 |-> (i * 29 + 3) % 256], [i \in 1..24 |-> (i * 31 + 5) % 256] }
 ExplicitEntropy == [i \in 1..24 |-> (i * 29 + 3) % 256]      \* the entropy a caller supplies (also drawable)
-MCPWs == { <<228>>, <<97, 776>>, <<98>> }
-MCPWsThorough == { <<228>>, <<97, 776>>, <<98>>, <<97>>, <<>>, <<120, 0, 66560, 128169>> }
+\* a-umlaut, its decomposed form, another letter, and the raw bytes of a-umlaut's UTF-8 (same passphrase as the first two)
+MCPWs == { Txt(<<228>>), Txt(<<97, 776>>), Txt(<<98>>), Raw(<<195, 164>>) }
+\* ... plus: a, empty, NUL + astral characters, the text "12" and the byte 0x12 (its hexadecimal reading: another passphrase),
+\* the text "12" given as bytes (the same passphrase as the text)
+MCPWsThorough == { Txt(<<228>>), Txt(<<97, 776>>), Txt(<<98>>), Raw(<<195, 164>>), Txt(<<97>>), Txt(<<>>),
+                   Txt(<<120, 0, 66560, 128169>>), Txt(<<49, 50>>), Raw(<<18>>), Raw(<<49, 50>>) }
 MCLotSeqs == { <<>>, <<100000, 1>> }
 MCLotSeqsThorough == { <<>>, <<100000, 1>>, <<999999, 4095>>, <<524288, 0>> }
 
@@ -82,7 +87,7 @@ EncResult(priv, comp, net, pw) ==
         r   == EncryptNonEC(T, priv, comp, ver, pw, TRUE)
         a   == AddrOfPriv(T, priv, comp, ver)
     IN [ok  |-> r.st = "ok" /\ a.st = "ok",
-        cur |-> [tok |-> r.val, priv |-> priv, addr |-> a.val, comp |-> comp, net |-> net, pwn |-> ToyNfc(pw),
+        cur |-> [tok |-> r.val, priv |-> priv, addr |-> a.val, comp |-> comp, net |-> net, pwn |-> PassKey(pw),
                  ec |-> FALSE, lotseq |-> <<>>]]
 
 Encrypt(priv, comp, net, pw) ==
@@ -98,7 +103,7 @@ GenResult(pw, ls, comp, net, e) ==
     IN IF inter.st # "ok" \/ nw.st # "ok" THEN [ok |-> FALSE]
        ELSE [ok  |-> TRUE, tok |-> nw.val.tok,
              cur |-> [tok |-> nw.val.tok, priv |-> <<>>, addr |-> nw.val.addr, comp |-> comp, net |-> net,
-                      pwn |-> ToyNfc(pw), ec |-> TRUE, lotseq |-> ls]]
+                      pwn |-> PassKey(pw), ec |-> TRUE, lotseq |-> ls]]
 
 Gen(pw, ls, comp, net, e, explicit) ==
     /\ Len(hist) < MaxGen /\ last.op \in {"none", "gen"}
@@ -128,7 +133,7 @@ Next == \/ \E priv \in Keys, comp \in BOOLEAN, net \in Nets, pw \in PWs : Encryp
 Spec == Init /\ [][Next]_vars
 
 (* ------------------------- invariants ------------------------------------ *)
-SamePass == last.op = "dec" /\ ToyNfc(last.pw) = cur.pwn /\ AddrVersion[last.net] = AddrVersion[cur.net]
+SamePass == last.op = "dec" /\ PassKey(last.pw) = cur.pwn /\ AddrVersion[last.net] = AddrVersion[cur.net]
 
 RoundTrip == SamePass =>
     /\ last.r.st = "ok"
